@@ -491,3 +491,65 @@ class LoopHoistPureOperations_contract:
 
     def canary(sh, a, ret):
         check("canary: nothing is ever hoisted", len(ret) == 0 and sh["kind"] == "pure" and all(level_of(s) == 0 and s != "farg" for s in sh["operands"]))
+
+
+# =====================================================================================
+# MergeForLoops on a loop that was itself produced by an earlier merge (nests of depth >= 3)
+# =====================================================================================
+from xdsl.ir import Use  # noqa: E402
+
+
+class UserOp(Operation):
+    """any op of the parent body that reads the parent's induction variable"""
+
+    def __init__(self, operands):
+        self._init_op(list(operands), [None], [IndexType()])
+
+
+@contract
+class MergeForLoops_prior_users_contract:
+    """EVERY op that read the parent's induction variable before the merge reads the rebuilt parent index (k div ub)
+    afterwards - also the div / rem index computations an EARLIER merge left in the parent body (three-deep nests are merged
+    in two steps); the only reader of the raw counter is the new division itself"""
+    target = "snaxc.transforms.pipeline.pipeline_canonicalize_for.MergeForLoops.match_and_rewrite"
+    shapes = [dict(users=u) for u in (("div", "rem"), ("other",), ("div", "other", "rem"), ("rem",))]
+    native = False
+    total = True
+    permissive = True
+    compare_ret = False
+
+    def args(sh, sym):
+        ub, ub_p = sym.int("ub", 1), sym.int("ub_p", 0)
+        inner = mk_for(0, ub, 1, [OtherOp(True)])
+        blk = Block([], arg_types=[IndexType()])
+        iv = blk.args[0]
+        c = const(sym.int("c", 1))
+        users = []
+        for kind in sh["users"]:
+            users.append(arith.DivUIOp(iv, c) if kind == "div" else (arith.RemUIOp(iv, c) if kind == "rem" else UserOp([iv])))
+        for o in [c] + users + [inner, scf.YieldOp()]:
+            blk.add_op(o)
+        parent = scf.ForOp(const(0), const(ub_p), const(1), [], Region([blk]))
+        return [inner, parent, iv, users, ub]
+
+    def run(sh, a):
+        rw = PatternRewriter(a[0])
+        pcf.MergeForLoops().match_and_rewrite(a[0], rw)
+        return rw.log
+
+    def ensures(sh, a, ret):
+        inner, parent, iv, users, ub = a
+        check("the nest is merged", any(e[0] == "replace_op" and e[1] is parent for e in ret))
+        rep = getattr(iv, "replaced", None)
+        check("the readers of the parent's induction variable are redirected", rep is not None)
+        if rep is None:
+            return
+        value, predicate = rep
+        d = value.owner
+        check("... to the rebuilt parent index k div ub", isinstance(d, arith.DivUIOp) and d.lhs is iv and den(d.rhs) == ub)
+        for k, u in enumerate(users):
+            check(f"reader {k} ({sh['users'][k]}) of the parent's induction variable now reads the rebuilt index", predicate is None or predicate(Use(u, 0)))
+        check("the new division itself keeps reading the merged counter", predicate is not None and not predicate(Use(d, 0)))
+
+    def canary(sh, a, ret):
+        check("canary: nothing is redirected", getattr(a[2], "replaced", None) is None)
